@@ -193,6 +193,9 @@ class Caller(object):
         if vs and t.draw(2):
             constraints.append(cons.LocationConstraint(
                 vs[t.draw(len(vs))], chips[t.draw(len(chips))]))
+        if t.draw(6) == 0 and len(constraints) > 1:
+            # the very same constraint object listed twice
+            constraints.append(constraints[-1])
         if len(vs) > 2 and t.draw(3) == 0:
             a, b = vs[t.draw(len(vs))], vs[t.draw(len(vs))]
             if not any(isinstance(c, cons.LocationConstraint) and
@@ -288,6 +291,9 @@ class Caller(object):
             if kind == "place" or r[0] != "ok":
                 return label, self.norm(r)
             placements = r[1]
+            if t.draw(3) == 0:
+                placements = collections.OrderedDict(
+                    sorted(placements.items(), key=lambda kv: kv[0].i))
             label = "allocate"
             r = self.guarded(label, alloc.allocate,
                              (vr, nets, machine, constraints, placements), {},
@@ -315,7 +321,11 @@ class Caller(object):
                 "rig.routing_table.remove_default_routes").minimise
             oc = rig_module("rig.routing_table.ordered_covering").minimise
             methods = [(rdr, oc), (oc,), (rdr,)][t.draw(3)]
-            target = [None, 1, 1000][t.draw(3)]
+            target = [None, 0, 1, 1000][t.draw(4)]
+            if t.draw(5) == 0:
+                # duplicate entries in a table
+                for xy in list(tables)[:1]:
+                    tables[xy] = list(tables[xy]) + list(tables[xy])[:1]
             label = "minimise_tables[%s,target=%r]" % (
                 "+".join(m.__module__.split(".")[-1] for m in methods),
                 target)
